@@ -275,7 +275,22 @@ class SimCluster(object):
         return None
 
     # ------------------------------------------------------------------ answering
-    def reply(self, conn, err=None, only=None):
+    @staticmethod
+    def corrupt_records(data, k):
+        """Flip one bit in the last byte of the k-th complete top-level message of a message set (a bit error in
+        flight: the message's CRC no longer matches).  Returns data unchanged when there is no such message."""
+        pos, i = 0, 0
+        while pos + 12 <= len(data):
+            size = int.from_bytes(data[pos + 8:pos + 12], "big")
+            end = pos + 12 + size
+            if size < 0 or end > len(data):
+                break
+            if i == k:
+                return data[:end - 1] + bytes([data[end - 1] ^ 1]) + data[end:]
+            pos, i = end, i + 1
+        return data
+
+    def reply(self, conn, err=None, only=None, corrupt=None):
         """Answer the oldest unanswered request on `conn`.  err: error code to inject (state not changed for
         the affected partitions); only: (topic, partition) the injection is limited to."""
         r = conn.server.queue.pop(0)
@@ -297,6 +312,11 @@ class SimCluster(object):
         body = self._apply(r, err, only)
         r.answer = body
         r.answered = True
+        if corrupt is not None and body is not None and r.parsed["api_key"] == rk.FETCH:
+            r.injected = "corrupt=%d" % corrupt
+            body = dict(body, topics=[dict(t, partitions=[dict(p_, records=self.corrupt_records(p_["records"],
+                                                                                                  corrupt))
+                                                          for p_ in t["partitions"]]) for t in body["topics"]])
         if body is not None:
             p = r.parsed
             conn.b2c += rk.frame(rk.encode_response(p["api_key"], p["api_version"], p["correlation_id"], body))
